@@ -213,6 +213,8 @@ struct StreamCtx {
     pieces: Vec<String>,
     /// non-empty: write these byte pieces through lol_html_streaming_sink_write_utf8_chunk
     byte_pieces: Vec<Vec<u8>>,
+    /// after the byte pieces: write_str("") (the source was truncated inside a character)
+    truncated: bool,
     html: bool,
 }
 
@@ -255,6 +257,9 @@ unsafe extern "C" fn stream_write_cb(sink: *mut c_void, ud: *mut c_void) -> c_in
                 return 1;
             }
         }
+        if c.truncated {
+            unsafe { lol_html_streaming_sink_write_str(sink, b"".as_ptr().cast(), 0, c.html) };
+        }
         return 0;
     }
     for p in &c.pieces {
@@ -279,7 +284,7 @@ fn pieces(s: &str, k: u8) -> Vec<String> {
 }
 
 unsafe fn streamer(w: *mut World, c: &Content) -> lol_html_streaming_handler_t {
-    let ctx = Box::into_raw(Box::new(StreamCtx { world: w, pieces: pieces(&c.s, c.stream), byte_pieces: if c.utf8_chunks > 0 { crate::scenario::byte_pieces(&c.s, c.utf8_chunks) } else { vec![] }, html: c.html }));
+    let ctx = Box::into_raw(Box::new(StreamCtx { world: w, pieces: pieces(&c.s, c.stream), byte_pieces: if c.utf8_chunks > 0 { crate::scenario::byte_pieces(&c.s, c.utf8_chunks) } else { vec![] }, truncated: crate::scenario::truncated_prefix(c).is_some(), html: c.html }));
     unsafe {
         (*w).keep_stream.push(ctx);
         (*w).streams_created += 1;
